@@ -13,6 +13,15 @@ EXTENDS Integers, Sequences
 None == [has |-> FALSE, v |-> 0]
 Some(x) == [has |-> TRUE, v |-> x]
 
+NoReading == [usage |-> 0, start |-> None, end |-> None]
+(* Configuration = the SEQUENCE of resource options handed to NewModel, each *)
+(* kind at most once: [kind |-> "clock"] (always there: the harness clock),  *)
+(* [kind |-> "init", init |-> reading] (resource.WithInitialValue).  The     *)
+(* order does not matter: the reading given is the initial reading.          *)
+OptsOf(opts, kind) == SelectSeq(opts, LAMBDA o : o.kind = kind)
+HasOpt(opts, kind) == OptsOf(opts, kind) # <<>>
+ConfReading(opts) == IF HasOpt(opts, "init") THEN OptsOf(opts, "init")[1].init ELSE NoReading
+
 \* init = the reading handed to the constructor (all absent/zero when none was)
 New(init, now) == [usage |-> init.usage,
                    start |-> IF init.start.has THEN init.start ELSE Some(now),
@@ -32,5 +41,4 @@ Ordered(st) == st.start.has /\ st.end.has /\ st.start.v <= st.end.v
 (* the instant first does not.)                                            *)
 ConcurrentRecordOk(mid, at, v, err, post) ==
   IF err # "OK" THEN post = mid ELSE post = Record(mid, at, v) /\ Ordered(post)
-NoReading == [usage |-> 0, start |-> None, end |-> None]
 =============================================================================
